@@ -1,4 +1,5 @@
 import Fpdec.Prim
+import Fpdec.Spec.Arith
 
 /-!
 # Spec: IEEE-754 binary formats, round-to-nearest-even of a positive rational
@@ -53,5 +54,31 @@ def decodeBits (f : FloatFmt) (bits : Nat) : Nat × Nat :=
   else
     let e : Int := be - f.bias - f.fracBits
     if e ≥ 0 then ((frac + 2 ^ f.fracBits) * 2 ^ e.toNat, 1) else (frac + 2 ^ f.fracBits, 2 ^ (-e).toNat)
+
+/-- C12: bit pattern of `f64::from(d)` / `f32::from(d)` for the decimal `a / 10^p` -/
+def intoFloat (f : FloatFmt) (a : Int) (p : Nat) : Nat :=
+  if a = 0 then 0 else rneBits f a.natAbs (10 ^ p) ||| ((if a < 0 then 1 else 0) <<< (f.bits - 1))
+
+/-- what `Decimal::try_from(float)` may return -/
+inductive FromFloatExp
+  | infinite | nan | overflow
+  | val (c : Int) (p : Nat)
+  /-- exactly `-2^127`: value or overflow -/
+  | valOrOvf (c : Int) (p : Nat)
+deriving Repr, DecidableEq
+
+/-- C13: the exact value of the float rounded half-even to 18 fractional digits, trailing zeros removed -/
+def fromFloat (f : FloatFmt) (bits : Nat) : FromFloatExp :=
+  let be := (bits >>> f.fracBits) % 2 ^ f.expBits
+  let frac := bits % 2 ^ f.fracBits
+  let neg := (bits >>> (f.bits - 1)) % 2 = 1
+  if be = 2 ^ f.expBits - 1 then (if frac = 0 then .infinite else .nan) else
+  let (num, den) := decodeBits f (bits % 2 ^ (f.bits - 1))
+  let n : Int := if neg then -(num : Int) else num
+  let r := specRound .heven (n * 10 ^ 18) den
+  let (c, k) := normalizeSpec 19 r 18
+  if c = -(2 : Int) ^ 127 then .valOrOvf c k
+  else if fits c then .val c k
+  else .overflow
 
 end Fpdec.Spec
